@@ -12,13 +12,72 @@ TYPES = [('i32', 'int', True), ('u32', 'unsigned', False)]
 
 def make(tier):
     P = Plan('C13', level='proof', design_ref='DESIGN.md section 5 C13')
-    P.not_decided += ['box::center, stretch_relative, structure_cast, output (not part of the point-set statement / floating point / iostream)',
-                      'box::distance / interval_distance (definitional doc semantics only)',
-                      'extend_bounding_box(box, point) overload (documented with closed-interval wording)']
+    P.not_decided += ['box::stretch_relative, output (floating point / iostream)', 'center, distance, structure_cast and extend_bounding_box(box, point) are under definitional contracts for box<int,2> only (unit extra)']
+    make_extra(P)
     for N in (1, 2, 3):
         for (tn, tt, sg) in TYPES:
             make_inst(P, N, tn, tt, sg, tier)
     return P
+
+
+def make_extra(P):
+    """box<int,2>: extend_bounding_box(box, point), center, distance / interval, structure_cast, init_dim / init_max - the functions around the point-set core"""
+    shim = """#include <fcppt/math/box/object.hpp>
+#include <fcppt/math/box/extend_bounding_box.hpp>
+#include <fcppt/math/box/center.hpp>
+#include <fcppt/math/box/distance.hpp>
+#include <fcppt/math/box/interval.hpp>
+#include <fcppt/math/box/structure_cast.hpp>
+#include <fcppt/math/box/contains_point.hpp>
+#include <fcppt/math/box/comparison.hpp>
+#include <fcppt/math/vector/static.hpp>
+#include <fcppt/math/vector/at.hpp>
+#include <fcppt/math/dim/static.hpp>
+#include <fcppt/cast/size_fun.hpp>
+#include <fcppt/tuple/get.hpp>
+using box = fcppt::math::box::object<int, 2>; using vec = box::vector; using lbox = fcppt::math::box::object<long, 2>;
+#define BX int ax0, int ay0, int ax1, int ay1
+static box mk(int x0, int y0, int x1, int y1){ return box{vec{x0, y0}, vec{x1, y1}}; }   // pos, max
+extern "C" {
+void vf_extend_point(BX, int qx, int qy, int *o){ box const r{fcppt::math::box::extend_bounding_box(mk(ax0, ay0, ax1, ay1), vec{qx, qy})}; o[0] = r.pos().x(); o[1] = r.pos().y(); o[2] = r.max().x(); o[3] = r.max().y(); }
+void vf_center(BX, int *o){ vec const c{fcppt::math::box::center(mk(ax0, ay0, ax1, ay1))}; o[0] = c.x(); o[1] = c.y(); }
+void vf_distance(BX, int bx0, int by0, int bx1, int by1, int *o){ auto const d = fcppt::math::box::distance(mk(ax0, ay0, ax1, ay1), mk(bx0, by0, bx1, by1)); o[0] = d.x(); o[1] = d.y();
+  auto const i0 = fcppt::math::box::interval<0>(mk(ax0, ay0, ax1, ay1)); auto const i1 = fcppt::math::box::interval<1>(mk(ax0, ay0, ax1, ay1)); o[2] = fcppt::tuple::get<0>(i0); o[3] = fcppt::tuple::get<1>(i0); o[4] = fcppt::tuple::get<0>(i1); o[5] = fcppt::tuple::get<1>(i1); }
+void vf_box_structure_cast(BX, long *o){ lbox const r{fcppt::math::box::structure_cast<lbox, fcppt::cast::size_fun>(mk(ax0, ay0, ax1, ay1))}; o[0] = r.pos().x(); o[1] = r.pos().y(); o[2] = r.max().x(); o[3] = r.max().y(); o[4] = r.size().w(); o[5] = r.size().h(); }
+}
+"""
+    S = lambda v: '(i32)%s' % v
+    L = lambda v: '(i64)(i32)%s' % v
+    ok = lambda a, b: '%s - %s >= -2147483648LL && %s - %s <= 2147483647LL' % (L(b), L(a), L(b), L(a))
+    wf = '%s && %s' % (ok('ax0', 'ax1'), ok('ay0', 'ay1'))
+    mn = lambda a, b: '(%s < %s ? %s : %s)' % (S(a), S(b), S(a), S(b))
+    mx = lambda a, b: '(%s > %s ? %s : %s)' % (S(a), S(b), S(a), S(b))
+    spec = 'function vf_extend_point\n  __CPROVER_requires(__CPROVER_is_fresh(o, 16) && %s && %s <= %s && %s <= %s)\n' % (wf, S('ax0'), S('ax1'), S('ay0'), S('ay1'))
+    spec += '  __CPROVER_requires(%s && %s && %s && %s)\n' % (ok('qx', 'ax1'), ok('qy', 'ay1'), ok('ax0', 'qx'), ok('ay0', 'qy'))
+    spec += '  __CPROVER_assigns(__CPROVER_object_whole(o))\n'
+    spec += '  __CPROVER_ensures((i32)o[0] == %s && (i32)o[1] == %s && (i32)o[2] == %s && (i32)o[3] == %s)\n' % (mn('qx', 'ax0'), mn('qy', 'ay0'), mx('qx', 'ax1'), mx('qy', 'ay1'))
+    spec += '  __CPROVER_ensures(VF_IMP(%s <= %s && %s < %s && %s <= %s && %s < %s, o[0] == ax0 && o[1] == ay0 && o[2] == ax1 && o[3] == ay1))\n' % (S('ax0'), S('qx'), S('qx'), S('ax1'), S('ay0'), S('qy'), S('qy'), S('ay1'))
+    spec += 'function vf_center\n  __CPROVER_requires(__CPROVER_is_fresh(o, 8) && %s)\n  __CPROVER_assigns(__CPROVER_object_whole(o))\n' % wf
+    spec += '  __CPROVER_ensures((i64)(i32)o[0] == %s + (%s - %s) / 2 && (i64)(i32)o[1] == %s + (%s - %s) / 2)\n' % (L('ax0'), L('ax1'), L('ax0'), L('ay0'), L('ay1'), L('ay0'))
+    wfb = '%s && %s' % (ok('bx0', 'bx1'), ok('by0', 'by1'))
+    # interval_distance as documented, written on 64-bit integers; requires: every difference it may form is representable
+    def idist(a0, a1, b0, b1):
+        # i1 = (a0,a1), i2 = (b0,b1); if a1 <= b1 swap
+        f = lambda p0, p1, q0, q1: '(%s <= %s ? %s - %s : ((%s - %s) > (%s - %s) ? (%s - %s) : (%s - %s)))' % (L(q0), L(p0), L(p0), L(q1), L(q1), L(p1), L(p0), L(q0), L(q1), L(p1), L(p0), L(q0))
+        return '(%s <= %s ? %s : %s)' % (L(a1), L(b1), f(b0, b1, a0, a1), f(a0, a1, b0, b1))
+    small = ' && '.join('%s >= -1000000000LL && %s <= 1000000000LL' % (L(v), L(v)) for v in ('ax0', 'ay0', 'ax1', 'ay1', 'bx0', 'by0', 'bx1', 'by1'))
+    spec += 'function vf_distance\n  __CPROVER_requires(__CPROVER_is_fresh(o, 24) && %s)\n  __CPROVER_assigns(__CPROVER_object_whole(o))\n' % small
+    spec += '  __CPROVER_ensures((i64)(i32)o[0] == %s && (i64)(i32)o[1] == %s)\n' % (idist('ax0', 'ax1', 'bx0', 'bx1'), idist('ay0', 'ay1', 'by0', 'by1'))
+    spec += '  __CPROVER_ensures(o[2] == ax0 && o[3] == ax1 && o[4] == ay0 && o[5] == ay1)\n'
+    spec += 'function vf_box_structure_cast\n  __CPROVER_requires(__CPROVER_is_fresh(o, 48) && %s)\n  __CPROVER_assigns(__CPROVER_object_whole(o))\n' % wf
+    spec += '  __CPROVER_ensures((i64)o[0] == %s && (i64)o[1] == %s && (i64)o[2] == %s && (i64)o[3] == %s && (i64)o[4] == %s - %s && (i64)o[5] == %s - %s)\n' % (L('ax0'), L('ay0'), L('ax1'), L('ay1'), L('ax1'), L('ax0'), L('ay1'), L('ay0'))
+    P.generated['extra.cpp'] = shim
+    P.generated['extra.spec'] = spec
+    u = P.unit('extra', 'extra.cpp', specs=['extra.spec'], inline=True)
+    u.contract('vf_extend_point', cls='P', backends=['sat', 'cvc5'], timeout=600, what='extend_bounding_box(box, point): the same box if the point is contained; otherwise the corners move just far enough to reach the point (pos = min(pos, point), max = max(max, point) per coordinate)')
+    u.contract('vf_center', cls='P', backends=['sat', 'cvc5', 'z3'], timeout=600, what='center == pos + size / 2 per coordinate (integer division)')
+    u.contract('vf_distance', cls='P', backends=['sat', 'cvc5'], timeout=600, what='box::distance is interval_distance per coordinate (negative overlap / shorter part as documented); box::interval<I> is (pos_I, max_I)')
+    u.contract('vf_box_structure_cast', cls='P', backends=['sat', 'cvc5'], timeout=600, what='box structure_cast converts position and size per component')
 
 
 def make_inst(P, N, tn, tt, sg, tier):
